@@ -129,6 +129,10 @@ struct ClientSt {
 	uint32_t fcmax = 1;
 	bool saw_disconnect = false;
 	int64_t disconnect_seen_at = -1;
+	// connection directories of earlier connections this client left while the server was alive and which the server had
+	// not yet removed (it may keep a connection, and its files, for as long as the application holds a reference): when
+	// the server dies later nobody is left to remove them, and the disconnect of a later connection does not concern them
+	std::set<std::string> left_dirs;
 };
 
 struct Trig { int kind; int conn; int64_t nth; size_t op; };
@@ -151,6 +155,7 @@ struct St {
 	std::map<int, int64_t> trig_count;      // (kind<<8 | conn) -> occurrences
 	int server_fd_baseline = -1;
 	std::set<std::string> ledger_paths;     // everything the server created under /dev/shm
+	std::vector<std::string> ledger_order;  // the same in order of creation (the names carry a random suffix: never let their sort order decide anything)
 	bool all_clients_done = false;
 	int64_t shutdown_tick = -1;
 	int accept_policy[3] = { 0, 0, 0 };      // errno to refuse with, per client (0 accept)
@@ -166,7 +171,7 @@ static St *Gp;
 #define G (*Gp)
 
 static int p_req_full, p_notify_deferred, p_fc_toggled, p_max_size_msg, p_backoff, p_early_req, p_early_out, p_emsgsize,
-	p_send_eagain, p_disc_in_msg, p_ref_outlives, p_closed_retry, p_destroy_alive, p_teardown_kill_armed, p_list_walk, p_client_died, p_server_died,
+	p_send_eagain, p_disc_in_msg, p_ref_outlives, p_closed_retry, p_destroy_alive, p_teardown_kill_armed, p_req_rechecked, p_list_walk, p_client_died, p_server_died,
 	p_refused, p_auth_set, p_pollin_checked, p_sendv_recv, p_event_delivered, p_resp_delivered, p_req_delivered, p_kill_fired,
 	p_hostile_conn, p_drain_ok, p_deferred_window, p_owner_checked, p_client_cleanup_checked, p_planted;
 static bool g_avoid_deferred;
@@ -192,6 +197,7 @@ static void init(const char *prop)
 	p_ref_outlives = counter_id("probe", "app_reference_outlives_peer");
 	p_closed_retry = counter_id("probe", "closed_callback_asked_for_retry");
 	p_destroy_alive = counter_id("probe", "service_destroyed_with_live_connections");
+	p_req_rechecked = counter_id("probe", "request_compared_again_before_msg_process_returned");
 	p_teardown_kill_armed = counter_id("probe", "server_death_armed_inside_connection_teardown");
 	p_list_walk = counter_id("probe", "connection_list_walked");
 	p_client_died = counter_id("probe", "client_process_died");
@@ -280,10 +286,11 @@ static void server_send(Conn &c, int dir, uint32_t len, bool use_iov)
 static int client_of_path(const std::string &p);
 static void plant_file(Conn &c)
 {
+	// the directory of the connection being accepted: the newest one made for this client
 	std::string dir;
-	for (std::set<std::string>::iterator it = G.ledger_paths.begin(); it != G.ledger_paths.end(); ++it) {
+	for (size_t n = 0; n < G.ledger_order.size(); n++) {
 		struct stat st;
-		if (client_of_path(*it) == c.client && lstat(it->c_str(), &st) == 0 && S_ISDIR(st.st_mode)) dir = *it;
+		if (client_of_path(G.ledger_order[n]) == c.client && lstat(G.ledger_order[n].c_str(), &st) == 0 && S_ISDIR(st.st_mode)) dir = G.ledger_order[n];
 	}
 	if (dir.empty()) return;
 	static const char *const CH[3] = { "request", "response", "event" };
@@ -423,6 +430,15 @@ static int32_t cb_msg(qb_ipcs_connection_t *sc, void *data, size_t size)
 		qb_loop_job_add(G.loop, QB_LOOP_LOW, sc, unref_job);
 	}
 	fire(T_MSG, c);
+	// the request belongs to the callback until it returns: whatever the client queued meanwhile must not have touched it
+	if (size == m.len && !failed() && !c->destroyed && c->closed_calls == 0) {
+		std::vector<uint8_t> exp; build_msg((uint32_t)c->id, m, exp);
+		if (memcmp(exp.data(), data, size) != 0) {
+			size_t k = 0; while (k < size && exp[k] == ((uint8_t *)data)[k]) k++;
+			VIOL(2, "request-changed-during-callback", "qb_ipcs_msg_process", "connection %d request #%llu (%u bytes) was intact when msg_process started but differs at byte %zu before it returned", c->id, (unsigned long long)m.serial, m.len, k);
+		}
+		count(p_req_rechecked);
+	}
 	if ((m.flags & DF_DISCONNECT_SELF) && !c->destroyed && c->closed_calls == 0) {
 		count(p_disc_in_msg);
 		qb_ipcs_disconnect(sc);
@@ -819,16 +835,21 @@ static void client_recv(ClientSt &k, int dir, int32_t tmo)
 	free(buf);
 }
 
-static int shm_leftovers(int server_spid, int client_spid, bool files_only, std::string &example);
+static int shm_leftovers(int server_spid, int client_spid, bool files_only, std::string &example, const std::set<std::string> *skip = NULL, std::set<std::string> *dirs_out = NULL);
 
 static void check_client_cleanup(ClientSt &k, bool server_dead_before)
 {
 	// C03: when the server died, the client's disconnect removes the shared-memory files the server left behind
 	// (only when the server was already dead when the disconnect started: a server that dies later, half-way through its
 	// own clean-up of a connection the client has already left, has nobody to tidy up after it)
-	if (which != 3 || !server_dead_before || failed()) return;
+	if (which != 3 || failed()) return;
+	if (!server_dead_before) {
+		std::string ex;
+		shm_leftovers(G.server_spid, k.spid, false, ex, NULL, &k.left_dirs);
+		return;
+	}
 	std::string ex;
-	int n = shm_leftovers(G.server_spid, k.spid, true, ex);
+	int n = shm_leftovers(G.server_spid, k.spid, true, ex, &k.left_dirs);
 	count(p_client_cleanup_checked);
 	if (n > 0)
 		VIOL(3, "client-disconnect-leaves-files", "qb_ipcc_disconnect", "client %d disconnected after the server had died, yet %d shared-memory file(s) of its connection remain, e.g. %s", k.idx, n, ex.c_str() + 9);
@@ -869,7 +890,7 @@ static void client_main(void *arg)
 				qb_ipcc_fc_enable_max_set(k.cc, k.fcmax);
 				if (which == 5 && k.conn && !G.server_dead) {
 					// from now on everything created for this connection belongs to whom the accept callback authorised
-					for (std::set<std::string>::iterator it = G.ledger_paths.begin(); it != G.ledger_paths.end() && !failed(); ++it) {
+					for (std::vector<std::string>::iterator it = G.ledger_order.begin(); it != G.ledger_order.end() && !failed(); ++it) {
 						if (client_of_path(*it) != k.idx) continue;
 						struct stat st;
 						if (lstat(it->c_str(), &st) != 0) continue;
@@ -1080,7 +1101,7 @@ static void on_path(const char *path, char what)
 {
 	if (cur_spid() != G.server_spid) return;
 	if (strncmp(path, "/dev/shm/", 9) != 0) return;
-	if (what == 'c' || what == 'd') G.ledger_paths.insert(path);
+	if (what == 'c' || what == 'd') { if (G.ledger_paths.insert(path).second) G.ledger_order.push_back(path); }
 }
 
 static int client_of_path(const std::string &p)
@@ -1094,7 +1115,7 @@ static int client_of_path(const std::string &p)
 
 static void check_modes(const char *when)
 {
-	for (std::set<std::string>::iterator it = G.ledger_paths.begin(); it != G.ledger_paths.end(); ++it) {
+	for (std::vector<std::string>::iterator it = G.ledger_order.begin(); it != G.ledger_order.end(); ++it) {
 		struct stat st;
 		if (lstat(it->c_str(), &st) != 0) continue;
 		int k = client_of_path(*it);
@@ -1138,7 +1159,7 @@ static void on_proc_death(int spid)
 	request_recycle();
 }
 
-static int shm_leftovers(int server_spid, int client_spid, bool files_only, std::string &example)
+static int shm_leftovers(int server_spid, int client_spid, bool files_only, std::string &example, const std::set<std::string> *skip, std::set<std::string> *dirs_out)
 {
 	int n = 0;
 	DIR *d = opendir("/dev/shm");
@@ -1149,6 +1170,8 @@ static int shm_leftovers(int server_spid, int client_spid, bool files_only, std:
 	struct dirent *de;
 	while ((de = readdir(d))) {
 		if (strncmp(de->d_name, pre, strlen(pre)) != 0) continue;
+		if (skip && skip->count(de->d_name)) continue;
+		if (dirs_out) dirs_out->insert(de->d_name);
 		std::string p = std::string("/dev/shm/") + de->d_name;
 		struct stat st;
 		if (lstat(p.c_str(), &st) != 0) continue;
@@ -1382,6 +1405,10 @@ static void gen(const char *prop, RunSpec &spec)
 			else if (k < 86) p.add(0, K_S_CLOSED_RETRY, T_CREATED, conn, 0, r.range(1, 3));
 			else if (k < 92) p.add(0, K_S_DESTROY, T_TICK, -1, r.range(2, 40));
 			else p.add(0, K_S_STATS, T_TICK, -1, r.range(1, 30));
+		} else if (w == 3 && k < 70) {
+			// the application keeps a reference of its own on a connection for a while: a dead client's connection then
+			// lingers (shutting down, still listed) while other clients come and go
+			p.add(0, K_S_REF, r.chance(1, 2) ? T_CREATED : T_MSG, conn, r.range(0, 4), r.range(1, 40));
 		} else p.add(0, K_S_STATS, T_TICK, -1, r.range(1, 30));
 	}
 	if (w == 5) {
